@@ -37,8 +37,10 @@ VARIABLES lines, out
 vars == <<lines, out>>
 
 AttrKinds == {"field", "const", "pad", "badconst"}
+\* mlprint: a @print whose expression holds a string literal that spans two physical lines (all line numbers of this
+\* module are indices of abstract lines; the harness maps them to the first physical line of each abstract line)
 StmtKinds == AttrKinds \cup {"union", "deprecated", "sealed", "extent", "assert", "print", "marker", "offq",
-                             "assertfalse", "undef"}
+                             "assertfalse", "undef", "mlprint"}
 HasStmt(l) == l.k \in StmtKinds
 IsEmptyLine(l) == l.k = "empty" /\ ~l.c        \* the only line on which visit_line flushes
 
@@ -93,7 +95,7 @@ Apply(s, l, i) ==
     [] l.k = "sealed" -> IF b.mode # "none" THEN Fail(s, i) ELSE SetCur(s, [b EXCEPT !.mode = "sealed"])
     [] l.k = "extent" -> IF b.mode # "none" THEN Fail(s, i) ELSE SetCur(s, [b EXCEPT !.mode = "extent"])
     [] l.k = "assert" -> s
-    [] l.k = "print"  -> [s EXCEPT !.prints = Append(@, i)]
+    [] l.k \in {"print", "mlprint"} -> [s EXCEPT !.prints = Append(@, i)]
     [] l.k = "marker" ->
          IF Len(s.structs) > 1 THEN Fail(s, i)
          ELSE [s EXCEPT !.hdr = TRUE, !.structs = Append(@, EmptyB)]
@@ -233,7 +235,7 @@ FlagsMirror ==
                  /\ out.parts[p].mode = "sealed" <=> \E j \in PartLines(lines, p) : lines[j].k = "sealed"
                  /\ out.parts[p].mode = "extent" <=> \E j \in PartLines(lines, p) : lines[j].k = "extent"
 PrintsMirror ==
-  out.ok => out.prints = SortedSeq({ j \in DOMAIN lines : lines[j].k = "print" })
+  out.ok => out.prints = SortedSeq({ j \in DOMAIN lines : lines[j].k \in {"print", "mlprint"} })
 
 \* C05 (directive placement part): accepted iff the placement rules hold
 AcceptIffValid == out.ok <=> ValidPlacement(lines)
@@ -250,7 +252,7 @@ ErrLineIsStatementLine ==
 \* prints delivered before a failure are exactly the @print lines before the failing line
 PrintsBeforeError ==
   ~out.ok /\ out.line # 0 /\ FirstSyntax(lines) = 0 =>
-     out.prints = SortedSeq({ j \in DOMAIN lines : lines[j].k = "print" /\ j < out.line })
+     out.prints = SortedSeq({ j \in DOMAIN lines : lines[j].k \in {"print", "mlprint"} /\ j < out.line })
 
 \* step level: every attribute statement is committed exactly once, after its statement and before finalization
 CommitOncePerStatement ==
